@@ -39,13 +39,20 @@ func scenC02(r *Run, job *Job) {
 	}
 	zombieAt, zombieSite := -1, ""
 	zombieErr := false
+	zombieNth, zombieSteps, zombieArmed, zombieAlive := 0, 0, false, false
 	if profile == "zombie" {
 		zombieAt = t.Draw(nInv - 1)
 		modes[zombieAt] = "zombie"
 		zombieSite = c02ZombieSites[t.Draw(len(c02ZombieSites))]
 		zombieErr = t.Chance(1, 3)
 		r.MaxHoldTime = 60 * time.Second // content-based oracle: long holds are fine
-		r.AddHold(zombieSite, 1+t.Draw(2)+2*zombieAt, 3+t.Draw(25))
+		// the hold is armed when the zombie's invocation reaches the runtime and counts the arrivals at the site from
+		// then on (1st .. 4th: every lock acquisition of the submission's path through that function is a candidate,
+		// however many there are in this tree)
+		zombieNth, zombieSteps = 1+t.Draw(4), 3+t.Draw(25)
+		// in a third of the runs the runtime does not die: it submits and waits for the verdict while the handler of
+		// its submission is descheduled - across the invocation's timeout and the reset if the hold lasts
+		zombieAlive = t.Chance(1, 3)
 	}
 	if profile == "platform" {
 		// the platform's own submission for a failed invocation (the default error response sent by the interop
@@ -58,7 +65,7 @@ func scenC02(r *Run, job *Job) {
 	}
 	w := r.NewWorld(WorldCfg{TimeoutSec: timeoutSec, ExtFiles: ExtFiles(exts)}, job.Seed)
 	e := w.NewEngine()
-	e.HoldAcrossTimers = profile == "platform"
+	e.HoldAcrossTimers = profile == "platform" || zombieAlive
 	e.Bound = time.Duration(nInv*(timeoutSec+8)+20) * time.Second
 	// adversarial extras drawn up front so that they are part of the tape header
 	type extra struct{ pre, post []Op }
@@ -106,6 +113,14 @@ func scenC02(r *Run, job *Job) {
 			return
 		}
 		b.PerInv = func(inv *Invocation) *InvBehav {
+			if zombieAlive && zombieArmed && inv.N-1 != zombieAt {
+				// the hold is meant for the handler of the zombie's submission: if it has not fired by now it never will
+				for _, h := range r.Holds {
+					if h.W == nil {
+						h.Done = true
+					}
+				}
+			}
 			switch modes[inv.N-1] {
 			case "ok":
 				if races[inv.N-1] != "" {
@@ -117,11 +132,35 @@ func scenC02(r *Run, job *Job) {
 				return &InvBehav{Mode: "stall"}
 			case "exit":
 				return &InvBehav{Mode: "exit", Exit: 1}
+			case "zombie":
+				if zombieAlive {
+					if !zombieArmed {
+						zombieArmed = true
+						// only the handler proper of a /response or /error submission (not the next poll the live
+						// runtime makes afterwards)
+						need := "rapi/handler.(*invocationResponseHandler)"
+						if zombieErr {
+							need = "rapi/handler.(*invocationErrorHandler)"
+						}
+						r.AddHold(zombieSite, zombieNth, zombieSteps).Need = need
+					}
+					if zombieErr {
+						return &InvBehav{Mode: "error", ErrType: "Function.Sim", Body: []byte(fmt.Sprintf("ZOMBIE-%d", inv.N))}
+					}
+					return &InvBehav{Body: []byte(fmt.Sprintf("ZOMBIE-%d", inv.N))}
+				}
 			}
 			return nil
 		}
 		b.Around = func(inv *Invocation) (pre, post []Op) {
+			if modes[inv.N-1] == "zombie" && zombieAlive {
+				return nil, nil
+			}
 			if modes[inv.N-1] == "zombie" {
+				if !zombieArmed {
+					zombieArmed = true
+					r.AddHold(zombieSite, zombieNth, zombieSteps)
+				}
 				kind := "response-die"
 				if zombieErr {
 					kind = "error-die"
@@ -141,7 +180,7 @@ func scenC02(r *Run, job *Job) {
 	for i := 0; i < nInv; i++ {
 		e.Plan = append(e.Plan, InvSpec{Payload: Tagged(fmt.Sprintf("ev%d", i+1), 16)})
 	}
-	r.Desc = fmt.Sprintf("C02 %s T=%ds modes=%v zombieSite=%q exts=%v reorder=%d/%d", profile, timeoutSec, modes, zombieSite, exts, r.ReorderNum, r.ReorderDen)
+	r.Desc = fmt.Sprintf("C02 %s alive=%v T=%ds modes=%v zombieSite=%q exts=%v reorder=%d/%d", profile, zombieAlive, timeoutSec, modes, zombieSite, exts, r.ReorderNum, r.ReorderDen)
 	r.Logf("%s", r.Desc)
 	e.Stuck = func() { r.Failf("C02.hang", "plan did not finish within the bound") }
 	e.Run()
@@ -242,6 +281,13 @@ func scenC02(r *Run, job *Job) {
 			// the runtime died while (or right after) submitting: either its response got through or the invocation failed
 			zb := []byte(fmt.Sprintf("ZOMBIE-%d", inv.N))
 			eb, ok := ParseErr(body)
+			if zombieAlive {
+				// the runtime stayed alive: its submission got through, or - only if its handler was in fact held
+				// back - the invocation ran into its timeout first
+				r.Check(bytes.Equal(body, zb) && (st == 200 || zombieErr) || r.holdEverFired() && st == 200 && bytes.Equal(body, timeoutBody), "C02.zombie-victim", "invocation %d (submission's handler delayed, runtime alive): %d %s", inv.N, st, summarize(body))
+				r.NonTriv = r.NonTriv || r.holdEverFired()
+				break
+			}
 			r.Check(st >= 500 && (bytes.Equal(body, zb) || ok && eb.ErrorType == "Runtime.ExitError") || st == 200 && bytes.Equal(body, zb), "C02.zombie-victim", "invocation %d (runtime died while submitting): %d %s", inv.N, st, summarize(body))
 			r.NonTriv = r.NonTriv || r.holdEverFired()
 		}
